@@ -41,7 +41,7 @@ impl Keyspaces {
 
 // NOT under contract: get_keyspaces_to_flush_for_oldest_journal_eviction (Verus: `continue` inside `for` unsupported)
 
-//@extract src/journal/manager.rs :: JournalManager :: maintenance world desugar_for=1 optmap props=C10+C02+C12+C09+C04+C03
+//@extract src/journal/manager.rs :: JournalManager :: maintenance world desugar_for=1 optmap props=C10+C02+C12+C09+C04+C03+C18
 //@contract-file fn/jmgr_maintenance.c
 //@loop 0
             invariant
